@@ -534,6 +534,9 @@ impl Curve {
     }
 
     pub fn scalar64_mul(&self, k: u64, p: &Point) -> Point {
+        if k == 0 {
+            return Point(M128(0), self.one, self.one);
+        }
         // Prepare small steps.
         let pext = self.ext(p);
         let p2 = self.dblext(p);
